@@ -24,7 +24,7 @@ type Seen struct {
 	Ctx string `json:"ctx"` // first context it was seen in (iso/emb, procN:iso, ...)
 	Src string `json:"src"` // source file that produced it first
 	// In counts the observations per kind of context: "iso" (alone in a file)
-	// and "emb0".."emb3" (the four ways of embedding), whatever the process
+	// and "emb-<kind>" (the ways of embedding, EmbedKinds), whatever the process
 	In map[string]int `json:"in"`
 }
 
@@ -63,7 +63,7 @@ func (o *Observations) addLocked(id, meaning string, ob Obs, n int, ctx, src str
 		co.ByMeaning[meaning] = mm
 	}
 	k := ob.Key()
-	kind := ctx // iso | emb0..emb3 (the wrapper), whatever the process
+	kind := ctx // iso | emb-<wrapper>, whatever the process
 	if i := strings.LastIndex(ctx, ":"); i >= 0 {
 		kind = ctx[i+1:]
 	}
@@ -190,23 +190,50 @@ func unionVars(a []string, extra ...string) []string {
 	return r
 }
 
+// EmbedKinds are the ways a message is embedded (cf. SoyMsg.MsgContextKinds):
+// every kind of block that can hold a message, nested, and repeated.
+var EmbedKinds = []string{"after-message", "if", "elseif", "else", "foreach", "ifempty", "switch-case",
+	"switch-default", "let-block", "call-param", "log", "nested", "twice"}
+
 // embedTemplate wraps the target message in other code and messages.
 func embedTemplate(j int, c *MsgCase, desc string) string {
 	body := UnparseBody(c.Parts)
 	m := MsgTag("", desc, body)
+	noise := `{msg desc="noise"}{$x_1} and {$x}{/msg}`
 	var t string
-	switch j % 4 {
-	case 0:
-		t = `lead {$x}{msg desc="noise one"}Hello {$x_1} and {$x}{/msg}` + m + `{msg meaning="z" desc="noise two"}{$x}{/msg}`
-	case 1:
-		t = `{if $x}` + m + `{else}{msg desc="noise"}{$x_1}{/msg}{/if}`
-	case 2:
-		t = `{foreach $i in [1, 2]}{$i}` + m + `{/foreach}{msg desc="noise"}{$x}{$x_1}{/msg}`
-	default:
+	switch EmbedKinds[j%len(EmbedKinds)] {
+	case "after-message":
+		t = `lead {$x}{msg desc="noise one"}Hello {$x_1} and {$x}{/msg}` + m + `{msg meaning="z" desc="noise two"}{$x}{/msg}{$x_1}`
+	case "if":
+		t = `{if $x}` + m + `{else}` + noise + `{/if}`
+	case "elseif":
+		t = `{if $x}` + noise + `{elseif $x_1}` + m + `{/if}`
+	case "else":
+		t = `{if $x}` + noise + `{elseif $x_1}-{else}` + m + `{/if}`
+	case "foreach":
+		t = `{foreach $i in [1, 2]}{$i}` + m + `{/foreach}` + noise
+	case "ifempty":
+		t = `{foreach $i in $x}{$i}{ifempty}` + m + `{/foreach}{$x_1}`
+	case "switch-case":
+		t = `{switch $x}{case 1}` + m + `{default}` + noise + `{/switch}`
+	case "switch-default":
+		t = `{switch $x}{case 1, 2}` + noise + `{default}` + m + `{/switch}`
+	case "let-block":
+		t = `{let $v}` + m + `{/let}{$v}{$x}{$x_1}`
+	case "call-param":
+		t = `{call .sink}{param k}` + m + `{/param}{/call}{$x}{$x_1}`
+	case "log":
+		t = `{log}` + m + `{/log}{$x}{$x_1}`
+	case "nested":
+		t = `{if $x}{foreach $i in [1]}{$i}{call .sink}{param k}{let $v}` + m + `{/let}{$v}{/param}{/call}{/foreach}{/if}{$x_1}`
+	default: // twice
 		t = m + MsgTag("", desc+"|dup", body) + `{$x}{$x_1}`
 	}
 	return Template("t"+strconv.Itoa(j), unionVars(BodyVars(c.Parts), "x", "x_1"), "", t)
 }
+
+// embedSink is the callee of the call-param / nested wrappers.
+const embedSink = "/** @param k */\n{template .sink}\n{$k}\n{/template}\n"
 
 func wantsMeanings(c *MsgCase, r *rand.Rand) bool {
 	if strings.HasPrefix(c.ID, "X") || len(c.Parts) <= 2 && !strings.HasPrefix(c.ID, "P") {
@@ -293,7 +320,7 @@ func ObserveAll(cases []*MsgCase, plan Plan) *Observations {
 				}
 				for rep := 0; rep < plan.EmbedReps; rep++ {
 					var b strings.Builder
-					b.WriteString("{namespace c10.emb}\n")
+					b.WriteString("{namespace c10.emb}\n" + embedSink)
 					descs := make([]string, len(chunk))
 					for j, c := range chunk {
 						descs[j] = fmt.Sprintf("T|%s|e%d in chunk %d", c.ID, rep, chunkNo)
@@ -305,7 +332,7 @@ func ObserveAll(cases []*MsgCase, plan Plan) *Observations {
 					if err != nil {
 						// find the culprit by compiling its template alone
 						for j, c := range chunk {
-							one := "{namespace c10.emb}\n" + embedTemplate(j+rep, c, descs[j])
+							one := "{namespace c10.emb}\n" + embedSink + embedTemplate(j+rep, c, descs[j])
 							if _, e1 := ObserveByDesc([]core.File{{Name: "emb.soy", Text: one}}, caseGlobals(c)); e1 != nil {
 								obs.addErr(c.ID, e1.Error(), one)
 							}
@@ -315,7 +342,11 @@ func ObserveAll(cases []*MsgCase, plan Plan) *Observations {
 					for j, c := range chunk {
 						for _, d := range []string{descs[j], descs[j] + "|dup"} {
 							if o, ok := m[d]; ok {
-								obs.add(c.ID, "", o, fmt.Sprintf("emb%d", (j+rep)%4), src)
+								kind := EmbedKinds[(j+rep)%len(EmbedKinds)]
+								if j == len(chunk)-1 {
+									kind += "+last-template"
+								}
+								obs.add(c.ID, "", o, "emb-"+kind, src)
 							}
 						}
 					}
